@@ -545,6 +545,14 @@ def t_cancel_all(h):
             goal = ops.land(goal, ops.implies(ops.lnot(was_active), ops.equal(now, st)))
         h.prove(goal, 'cancel-all.every-active-order-cancelled-final-ones-untouched')
         h.prove(reg.f['storage']['Sandbox-BTC-USDT'] == [], 'cancel-all.registry-cleared')
+        # the pruning the simulator runs on every candle then empties the active view as well: no order is left that is not final, so
+        # nothing may be reported as active any more (the full list being empty is no reason to skip the pruning)
+        out2 = h.method_outcome(reg, 'update_active_orders', 'Sandbox', 'BTC-USDT')
+        h.prove(out2.ok, 'cancel-all.pruning.no-exception', {'raised': out2.exc})
+        if out2.ok:
+            left = h.method_outcome(reg, 'get_active_orders', 'Sandbox', 'BTC-USDT')
+            h.prove(left.ok and list(left.value) == [], 'cancel-all.the-active-view-is-empty-after-the-next-pruning',
+                    {'left': len(left.value) if left.ok else None})
 
 
 def t_liquidate(profit):
